@@ -28,6 +28,7 @@ import (
 	"reflect"
 	"runtime"
 	"slices"
+	"strconv"
 	"strings"
 	"sync/atomic"
 	"testing"
@@ -876,6 +877,11 @@ func (w *c40World) judge(q *c40Query, ans c40Answer, cands [][]*c40Blk, moment s
 		diffs = append(diffs, fmt.Sprintf("vs chain view #%d (head %d/%x): %s", i, len(cands[i])-1, cands[i][len(cands[i])-1].hash[:6], d))
 	}
 	w.dumpPointers(q, cands[len(cands)-1])
+	if w.release == nil && w.be.fm != nil { // triage aid: is the wrong answer transient?
+		again := w.ask(q)
+		w.tracef("same query asked again right away: %d logs, err=%v, equals the scan now: %v", len(again.logs), again.err,
+			again.err == nil && c40Diff(again.logs, q.expect(cands[len(cands)-1])) == "")
+	}
 	w.rt.Fatalf("query %s at moment %q (preset %s, history %d, disabled %v, last op %s) does not equal the scan of canonical logs:\n  %s%s",
 		q, moment, w.preset.name, w.history, w.disabled, w.lastOp, strings.Join(diffs, "\n  "), w.traceText())
 	return nil
@@ -1356,4 +1362,60 @@ func TestVerifC40Queries(t *testing.T) {
 	if c40AtHead.Load() == 0 && c40BehindHead.Load() > 3 {
 		t.Fatalf("VERIF-HARNESS-BUG: the log index never reached the head in %d scenarios; the index was not exercised", c40BehindHead.Load())
 	}
+}
+
+// TestVerifC40Stress is a triage aid (only with VERIF_C40_STRESS=n): it repeats one racy step —
+// deep revert of the head while the index covers the whole chain, then an immediate query on an
+// old block — to raise the rate of schedule-dependent outcomes.
+func TestVerifC40Stress(t *testing.T) {
+	n, _ := strconv.Atoi(os.Getenv("VERIF_C40_STRESS"))
+	if n == 0 {
+		t.Skip("triage aid, enabled with VERIF_C40_STRESS=<iterations>")
+	}
+	rapid.Check(t, func(rt *rapid.T) {
+		w := newC40World(t, rt)
+		defer w.close()
+		w.preset = c40Presets[1]
+		if p := os.Getenv("VERIF_C40_PRESET"); p != "" {
+			for _, c := range c40Presets {
+				if strings.HasPrefix(c.name, p) {
+					w.preset = c
+				}
+			}
+		}
+		w.fmp = c40Params(t, w.preset)
+		init := w.generate(nil, 100, 7, c40Density{6, 8})
+		w.commit(append(slices.Clone(w.canon), init...), "initial")
+		full := w.canon
+		side := append(slices.Clone(full[:5]), w.generate(full[4], 40, 11, c40Density{6, 8})...)
+		w.start(0, false)
+		w.waitIdle()
+		crit := c40Crit{topics: [][]common.Hash{{w.tpool[1], w.tpool[3], w.tpool[0]}}}
+		for it := 0; it < n; it++ {
+			low := 3 + it%9
+			w.trace = w.trace[:0]
+			if it%3 == 0 {
+				w.commit(slices.Clone(full[:low+1]), "rewind")
+			} else {
+				w.commit(slices.Clone(side[:max(low, 5)+1]), "switch-branch")
+			}
+			w.setTarget()
+			for y := it % 4; y > 0; y-- {
+				runtime.Gosched()
+			}
+			q := &c40Query{begin: 2, end: 2, crit: crit, kind: "single"}
+			ans := w.ask(q)
+			w.judge(q, ans, [][]*c40Blk{w.canon}, "indexer-running")
+			w.waitIdle()
+			w.commit(full, "restore")
+			w.setTarget()
+			if it%2 == 0 {
+				w.waitIdle()
+			} else {
+				q2 := &c40Query{begin: 2, end: 40, crit: crit, kind: "random"}
+				w.judge(q2, w.ask(q2), [][]*c40Blk{w.canon}, "indexer-running")
+				w.waitIdle()
+			}
+		}
+	})
 }
